@@ -2,7 +2,7 @@
 builder flow, type dedup, special-mode resolver details, name dispatch, additions)."""
 import os
 
-from vlib.facts import walk, peel, place_path, pat_alternatives, CheckError, REPO, lit_int, diverges
+from vlib.facts import conditional_ancestors, pat_variants, walk, peel, place_path, pat_alternatives, CheckError, REPO, lit_int, diverges
 from vlib.paths import paths, normal_paths
 from vlib.report import RuleResult
 from rules.nopanic import snippet
@@ -687,6 +687,35 @@ def scoped_pending(F, parts=("containers",)):
             r.violate("%s | %s unscoped" % (rs["path"], name), F.loc(rs),
                       "pending container `%s` is %s and is %s: bodies planned for an if-arm are emitted at the first nested else/end instead of the arm's own" % (
                           name, "keyed by block id" if keyed_by_block else "not keyed by block id", "cleared wholesale at every Else/End" if whole else "consumed by key"))
+    # drain: at `End` every pending container is drained for the closing block, independently of the others
+    # (a removal that only happens when another container had nothing — `a.remove(k).or_else(|| b.remove(k))` — leaves
+    # bodies behind that are never emitted)
+    if "containers" in parts:
+        end_arms = []
+        for m in walk(rs["body"]):
+            if m.get("k") == "Match" and "Operator" in (m.get("scrut_ty") or ""):
+                for arm in m["arms"]:
+                    vs = {v for _, v in pat_variants(arm["pat"])[0]}
+                    if vs == {"End"}:
+                        end_arms.append(arm)
+        if len(end_arms) != 1:
+            raise CheckError("resolve_special_instrumentation: expected one `Operator::End` arm in the driver match, found %d" % len(end_arms))
+        arm = end_arms[0]
+        for name in sorted(conts):
+            rms = [n for n in walk(arm["body"]) if n.get("k") == "MethodCall" and n["method"] == "remove" and (place_path(n["recv"]) or "") == name]
+            ok = False
+            why = "is not drained (no %s.remove(block_id)) in the End arm" % name
+            for rm in rms:
+                conds = [c for c in conditional_ancestors(arm["body"], rm) or []]
+                # allowed: the `if let Some(block_id) = block_stack.pop()` frame and early-`continue` delete_block handling precede it
+                bad = [c for c in conds if not (c.get("k") == "If" and any(x.get("k") == "MethodCall" and x["method"] == "pop" for x in walk(c["cond"])))]
+                if not bad:
+                    ok = True
+                else:
+                    why = "is drained only under %s at line %s" % (bad[0].get("k"), bad[0].get("sp", ["?"])[0])
+            r.ob(ok, {"container": name, "drained_at_end_unconditionally": ok})
+            if not ok:
+                r.violate("%s | %s drain" % (rs["path"], name), F.loc(rs, arm), "at a block's `end`, pending container `%s` %s: bodies waiting there for this block are silently never emitted" % (name, why))
     if "flag" not in parts:
         return r
     rb = F.one_fn(name="resolve_bodies")
@@ -744,4 +773,56 @@ def dead_after_sink(F):
     if not guard:
         r.violate("%s | function-label target" % sf["path"], F.loc(sf),
                   "a branch whose target is the function body (block id 0) gets its semantic-after body filed in After mode on the function's final end, where the encoder drops after-code: the flag set/reset is emitted but the probe body never is")
+    return r
+
+
+# ---------------------------------------------------------------- R-SAVE-SIBLINGS
+def save_siblings(F):
+    """entry().and_modify(push into list L).or_insert(literal): the literal must be the singleton of what and_modify pushes —
+    the same list L populated with the body (and flag), the other list empty.  Internal-consistency rule (no names): the
+    role of a save_* helper is the list its pushes target."""
+    r = RuleResult("R-SAVE-SIBLINGS",
+                   "in every helper that files a pending body (save_flagged_body_to_resolve, save_not_flagged_body_to_resolve[_inner]) the first-insert literal populates exactly the list the and_modify branch pushes to (flag-guarded bodies never become unconditional ones, and vice versa)")
+    ITI = "InstrToInject"
+    n = 0
+    for fn in F.fns:
+        if fn.get("body") is None:
+            continue
+        lits = [x for x in walk(fn["body"]) if x.get("k") == "Struct" and (x.get("adt") or "").endswith(ITI) and "rest" not in x and isinstance(x.get("fields"), list) and x["fields"] and isinstance(x["fields"][0], list) and isinstance(x["fields"][0][1], dict) and "k" in x["fields"][0][1] and x["fields"][0][1].get("k") not in ("Binding", "Wild")]
+        if not lits:
+            continue
+        pushes = set()
+        for c in walk(fn["body"]):
+            if c.get("k") == "MethodCall" and c["method"] in ("push", "extend", "append"):
+                pp = place_path(c["recv"]) or ""
+                for fld in ("flagged", "not_flagged"):
+                    if pp.endswith("." + fld):
+                        pushes.add(fld)
+        # helpers called from and_modify closures count too (save_not_flagged…_inner)
+        for c in walk(fn["body"]):
+            if c.get("k") == "Call" and (c.get("callee") or "") in F.by_path:
+                t = F.by_path[c["callee"]][0]
+                if t.get("body") and any(x.get("k") == "Struct" and (x.get("adt") or "").endswith(ITI) for x in walk(t["body"])):
+                    for cc in walk(t["body"]):
+                        if cc.get("k") == "MethodCall" and cc["method"] in ("push", "extend", "append"):
+                            pp = place_path(cc["recv"]) or ""
+                            for fld in ("flagged", "not_flagged"):
+                                if pp.endswith("." + fld):
+                                    pushes.add(fld)
+        body_params = {p["pat"].get("hid") for p in fn.get("params", []) if "Operator" in (p.get("ty") or "") and "Vec" in (p.get("ty") or "")}
+        if not pushes or not body_params:
+            continue
+        r.analysed.append(fn["path"])
+        for lit in lits:
+            n += 1
+            fs = dict(lit["fields"])
+            populated = {fld for fld in ("flagged", "not_flagged") if fld in fs and any(x.get("k") == "Path" and x.get("res", {}).get("hid") in body_params for x in walk(fs[fld]))}
+            ok = populated == pushes and len(pushes) == 1
+            r.ob(ok, {"fn": fn["name"], "pushes_to": sorted(pushes), "first_insert_populates": sorted(populated)})
+            if not ok:
+                r.violate("%s | first-insert %s vs push %s" % (fn["path"], "+".join(sorted(populated)) or "none", "+".join(sorted(pushes))), F.loc(fn, lit),
+                          "%s pushes later bodies to `%s` but its first-insert literal populates `%s`: the first body filed for a block/mode changes kind (a flag-guarded probe becomes unconditional or the reverse)" % (fn["name"], sorted(pushes), sorted(populated)))
+    r.count("first_insert_literals", n)
+    if n < 4:
+        raise CheckError("expected ≥4 InstrToInject first-insert literals in the save_* helpers, found %d" % n)
     return r
